@@ -31,12 +31,14 @@ theorem decode_encode_fuel (sz : Nat) (hsz : 32 ≤ sz) :
     simp [this]
   | .simple t, h, fuel, rest, hf => by
     obtain ⟨f, rfl⟩ : ∃ f, fuel = f + 1 := ⟨fuel - 1, by omega⟩
-    have := decodeText_stream sz t (all_ne_LF (by simpa [wf] using h)) rest
+    simp only [wf, Bool.and_eq_true, decide_eq_true_eq] at h
+    have := decodeText_stream sz t (all_ne_LF h.1) h.2 rest
     simp [decode, encode, maxBulkStringLen, maxArrayLen, tColon, tPlus] at this ⊢
     simp [this]
   | .err t, h, fuel, rest, hf => by
     obtain ⟨f, rfl⟩ : ∃ f, fuel = f + 1 := ⟨fuel - 1, by omega⟩
-    have := decodeText_stream sz t (all_ne_LF (by simpa [wf] using h)) rest
+    simp only [wf, Bool.and_eq_true, decide_eq_true_eq] at h
+    have := decodeText_stream sz t (all_ne_LF h.1) h.2 rest
     simp [decode, encode, maxBulkStringLen, maxArrayLen, tColon, tPlus, tMinus] at this ⊢
     simp [this]
   | .bulk none, h, fuel, rest, hf => by
@@ -110,19 +112,20 @@ end
 
 /-- **Round trip.** For every well-formed RESP value, every continuation `rest` of the
 stream and every reader buffer size ≥ 32: decoding the encoding yields the value and
-leaves exactly `rest` unconsumed. -/
-theorem decode_encode (sz : Nat) (hsz : 32 ≤ sz) (v : Resp) (h : wf v = true) (rest : Bytes) :
+leaves exactly `rest` unconsumed. (`hd`: nesting within the decoder's limit of 32 levels, the
+bound that C11 requires.) -/
+theorem decode_encode (sz : Nat) (hsz : 32 ≤ sz) (v : Resp) (h : wf v = true) (hd : depth v ≤ maxArrayDepth)
+    (rest : Bytes) :
     decodeStream sz (encode v ++ rest) = some (v, rest) := by
   unfold decodeStream
-  have := decode_encode_fuel sz hsz v h ((encode v ++ rest).length + 1) rest
-    (by have := depth_lt_encode v; simp only [List.length_append]; omega)
+  have := decode_encode_fuel sz hsz v h (maxArrayDepth + 1) rest (by omega)
   rw [this]
 
 /-- **Canonical bytes re-encode to themselves**: bytes in the image of the encoder decode
 to a value whose encoding is those bytes. -/
-theorem reencode_canonical (sz : Nat) (hsz : 32 ≤ sz) (v : Resp) (h : wf v = true) :
+theorem reencode_canonical (sz : Nat) (hsz : 32 ≤ sz) (v : Resp) (h : wf v = true) (hd : depth v ≤ maxArrayDepth) :
     (decodeStream sz (encode v)).map (fun p => encode p.1) = some (encode v) := by
-  have := decode_encode sz hsz v h []
+  have := decode_encode sz hsz v h hd []
   simp at this
   simp [this]
 
@@ -137,16 +140,17 @@ theorem encode_ne_nil (v : Resp) : encode v ≠ [] := by
 /-- **Concatenation.** A concatenation of encoded messages decodes to exactly those
 messages, in order, ending cleanly (every message consumed exactly its own bytes). -/
 theorem decodeAll_encodeList (sz : Nat) (hsz : 32 ≤ sz) :
-    ∀ (vs : List Resp), wfList vs = true → ∀ fuel, vs.length < fuel →
+    ∀ (vs : List Resp), wfList vs = true → depthList vs ≤ maxArrayDepth → ∀ fuel, vs.length < fuel →
       decodeAllStream sz fuel (encodeList vs) = (vs, true)
-  | [], _, fuel, hf => by
+  | [], _, _, fuel, hf => by
     obtain ⟨f, rfl⟩ : ∃ f, fuel = f + 1 := ⟨fuel - 1, by simp at hf; omega⟩
     simp [decodeAllStream, encodeList]
-  | v :: vs, h, fuel, hf => by
+  | v :: vs, h, hdep, fuel, hf => by
     obtain ⟨f, rfl⟩ : ∃ f, fuel = f + 1 := ⟨fuel - 1, by simp at hf; omega⟩
     simp only [wfList, Bool.and_eq_true] at h
-    have hd := decode_encode sz hsz v h.1 (encodeList vs)
-    have ih := decodeAll_encodeList sz hsz vs h.2 f (by simp at hf; omega)
+    simp only [depthList] at hdep
+    have hd := decode_encode sz hsz v h.1 (by omega) (encodeList vs)
+    have ih := decodeAll_encodeList sz hsz vs h.2 (by omega) f (by simp at hf; omega)
     have hne : (encode v ++ encodeList vs).isEmpty = false := by
       have := encode_ne_nil v
       cases he : encode v with
@@ -160,6 +164,7 @@ theorem decodeAll_encodeList (sz : Nat) (hsz : 32 ≤ sz) :
 and the buffer sizes the proxy uses are within the theorems' range (≥ 32). -/
 theorem constants_match_source :
     Gen.Codec.maxArrayLen = maxArrayLen ∧ Gen.Codec.maxBulkStringLen = maxBulkStringLen ∧
+    Gen.Codec.maxArrayDepth = maxArrayDepth ∧ Gen.Codec.maxLineLen = maxLineLen ∧
     Gen.Codec.cr = CR.toNat ∧ Gen.Codec.lf = LF.toNat ∧
     Gen.Codec.simpleString = tPlus.toNat ∧ Gen.Codec.error = tMinus.toNat ∧ Gen.Codec.integer = tColon.toNat ∧
     Gen.Codec.bulkString = tDollar.toNat ∧ Gen.Codec.array = tStar.toNat ∧
@@ -175,7 +180,7 @@ separated by single spaces, not starting with a type byte) decodes to the same r
 as its array-of-bulk-strings form, consuming exactly its line. -/
 theorem inline_eq_array (sz : Nat) (hsz : 32 ≤ sz) (t : Bytes) (ts : List Bytes)
     (hc : ∀ u ∈ t :: ts, u ≠ [] ∧ u.length ≤ maxBulkStringLen ∧ ∀ c ∈ u, c ≠ SP ∧ c ≠ LF)
-    (hlen : (t :: ts).length ≤ maxArrayLen)
+    (hlen : (t :: ts).length ≤ maxArrayLen) (hline : (joinSP (t :: ts)).length + 2 ≤ maxLineLen)
     (hfirst : ∀ c rest', t = c :: rest' → notTypeByte c = true) (rest : Bytes) :
     decodeStream sz (joinSP (t :: ts) ++ (crlf ++ rest))
       = decodeStream sz (encode (.arr (some ((t :: ts).map (fun u => .bulk (some u))))) ++ rest) := by
@@ -191,10 +196,16 @@ theorem inline_eq_array (sz : Nat) (hsz : 32 ≤ sz) (t : Bytes) (ts : List Byte
       | cons a as ih =>
         simp [wfList, wf, hl a (by simp), ih (fun u hu => hl u (by simp [hu]))]
     exact this _ (fun u hu => (hc u hu).2.1)
-  rw [decode_encode sz hsz _ hwf rest]
+  have hdep : depth (.arr (some ((t :: ts).map (fun u => Resp.bulk (some u))))) ≤ maxArrayDepth := by
+    have : ∀ (l : List Bytes), depthList (l.map (fun u => Resp.bulk (some u))) = 0 := by
+      intro l; induction l with
+      | nil => rfl
+      | cons a as ih => simp [depthList, depth, ih]
+    simp only [depth, this]; decide
+  rw [decode_encode sz hsz _ hwf hdep rest]
   -- left-hand side: the inline path
   have hnoLF := joinSP_no_LF (t :: ts) (fun u hu c hcu => ((hc u hu).2.2 c hcu).2)
-  have htext := decodeText_stream sz (joinSP (t :: ts)) hnoLF rest
+  have htext := decodeText_stream sz (joinSP (t :: ts)) hnoLF hline rest
   have hsplit := splitSpaces_joinSP (t :: ts) (by simp) (fun u hu c hcu => ((hc u hu).2.2 c hcu).1)
     (fun u hu => (hc u hu).1)
   obtain ⟨c, t', ht⟩ : ∃ c t', t = c :: t' := by
@@ -219,6 +230,7 @@ def sample : Resp :=
 
 example : wf sample = true := by decide
 example : depth sample = 3 := by decide
+example : depth sample ≤ maxArrayDepth := by decide
 
 end SamVerif.Props.C10
 
